@@ -231,53 +231,62 @@ type decoded struct {
 }
 
 func decodeKind(kind string, data []byte) (d decoded) {
+	// the decoder reads a private copy of the input which is overwritten as soon as the decoder returns
+	// (a receive buffer being reused): nothing the caller keeps may depend on the buffer afterwards
+	data = append(make([]byte, 0, len(data)+8), data...)
+	scrib := func(err error) error {
+		for i := range data {
+			data[i] ^= 0xa5
+		}
+		return err
+	}
 	d.paniced, d.panicv = protect(func() {
 		switch kind {
 		case "DSign1":
 			var m cose.Sign1Message
-			if d.err = m.UnmarshalCBOR(data); d.err == nil {
+			if d.err = scrib(m.UnmarshalCBOR(data)); d.err == nil {
 				d.s1 = &m
 				d.value = oSign1(&m)
 				d.reenc, d.reerr = m.MarshalCBOR()
 			}
 		case "DSign1U":
 			var m cose.UntaggedSign1Message
-			if d.err = m.UnmarshalCBOR(data); d.err == nil {
+			if d.err = scrib(m.UnmarshalCBOR(data)); d.err == nil {
 				d.s1 = (*cose.Sign1Message)(&m)
 				d.value = oSign1(d.s1)
 				d.reenc, d.reerr = m.MarshalCBOR()
 			}
 		case "DSignature":
 			var s cose.Signature
-			if d.err = s.UnmarshalCBOR(data); d.err == nil {
+			if d.err = scrib(s.UnmarshalCBOR(data)); d.err == nil {
 				d.sig = &s
 				d.value = oSigv(&s)
 				d.reenc, d.reerr = s.MarshalCBOR()
 			}
 		case "DSignMsg":
 			var m cose.SignMessage
-			if d.err = m.UnmarshalCBOR(data); d.err == nil {
+			if d.err = scrib(m.UnmarshalCBOR(data)); d.err == nil {
 				d.sm = &m
 				d.value = oSignMsg(&m)
 				d.reenc, d.reerr = m.MarshalCBOR()
 			}
 		case "DProt":
 			var h cose.ProtectedHeader
-			if d.err = h.UnmarshalCBOR(data); d.err == nil {
+			if d.err = scrib(h.UnmarshalCBOR(data)); d.err == nil {
 				d.prot = h
 				d.value = "OG (GMap " + cFlatMap(h) + ")"
 				d.reenc, d.reerr = h.MarshalCBOR()
 			}
 		case "DUnprot":
 			var h cose.UnprotectedHeader
-			if d.err = h.UnmarshalCBOR(data); d.err == nil {
+			if d.err = scrib(h.UnmarshalCBOR(data)); d.err == nil {
 				d.unprot = h
 				d.value = "OG (GMap " + cFlatMap(h) + ")"
 				d.reenc, d.reerr = h.MarshalCBOR()
 			}
 		case "DKey":
 			var k cose.Key
-			if d.err = k.UnmarshalCBOR(data); d.err == nil {
+			if d.err = scrib(k.UnmarshalCBOR(data)); d.err == nil {
 				d.key = &k
 				d.value = oKey(&k)
 				d.reenc, d.reerr = k.MarshalCBOR()
